@@ -124,7 +124,9 @@ def mutate(rng, text):
     elif r < 0.45:
         i = rng.randint(0, len(lines)); lines.insert(i, rng.choice([b"garbage", b"", b"\\ No newline at end of file", b"@@ -1 +1 @@", b"*** 1,2 ****",
                                                                     b"--- 1 ----", b"***************", b"1c1", b"diff --git a/x b/x", b"--- x", b"+++ y",
-                                                                    b"rename from q", b"GIT binary patch", b"Prereq: zz", b"Index: q/"]))
+                                                                    b"rename from q", b"GIT binary patch", b"Prereq: zz", b"Index: q/",
+                                                                    b"Index: q (revision 3)", b"Prereq: zz and more", b"Index: \"q\" tail", b"Prereq: \"z\"\tx",
+                                                                    b"Index: ", b"Prereq: ", b"Index: \t", b"--- q\t", b"+++ \"q\\", b"*** q "]))
     elif r < 0.6:
         # numbers to extremes
         import re
